@@ -301,7 +301,11 @@ func streamC12(env *runEnv) {
 				tmpl = hx([]byte(cf.template))
 			}
 			env.count("c12.mode." + cf.mode + "." + rq.login)
-			env.emit("download", hx([]byte(cf.mode)), strings.Join(hs, ","), b01(cf.split)+b01(cf.noUsername)+b01(cf.verify)+b01(!cf.noQueryIssuer), tmpl, hx([]byte(gwHost)),
+			effMode := cf.mode
+			if effMode == "" {
+				effMode = "roundrobin" // the default of config.Load ("Server.HostSelection": "roundrobin")
+			}
+			env.emit("download", hx([]byte(effMode)), strings.Join(hs, ","), b01(cf.split)+b01(cf.noUsername)+b01(cf.verify)+b01(!cf.noQueryIssuer), tmpl, hx([]byte(gwHost)),
 				rq.login, hx([]byte(rq.user)), hx([]byte(rq.sub)), hx([]byte(at)), hx([]byte(clientIP)), hx([]byte(otherIP)), par, qt, strconv.Itoa(pickIdx),
 				strings.Join(hexAll(addrs), ","), obs)
 		}
